@@ -41,7 +41,7 @@ def run(c):
     c.prove("SH.Props.C10", extra_files=["SH/Model/Routing.lean", "SH/Gen/C10.lean"])
     drv = c.driver(DRIVER)
     if binary and drv:
-        rc, out = c.go_run(binary, [f"-n={c.n(1200, 40000)}"])
+        rc, out = c.go_run(binary, [f"-n={c.n(1000, 40000)}"])
         c.harness_ok(rc, out, "verif-c10")
         c.correspond(out, drv)
     c.extra["exhaustive"] = True
